@@ -270,7 +270,9 @@ def damage_parity(arr, l, kind, rng):
         if kind == 'delete':
             os.unlink(f)
         elif kind == 'garbage':
-            open(f, 'wb').write(bytes(x ^ 0x5a for x in data) if rng.random() < 0.5 else rng.randbytes(len(data)))
+            # independent random bytes: a corruption correlated between levels (same constant xored into two levels, two levels
+            # zero-filled) can be mutually consistent and is then not detectable by anything
+            open(f, 'wb').write(rng.randbytes(len(data)))
         elif kind == 'zero':
             open(f, 'wb').write(bytes(len(data)))
         elif kind == 'truncate':
@@ -390,14 +392,23 @@ class Bridge01(Bridge):
         self.parity = par
         return par
 
+    def encodes(self, l, ids, got):
+        """does the real parity block `got` of level l equal the generator applied to the blocks `ids`?"""
+        acc = bytes(self.bs)
+        for k, x in enumerate(ids):
+            if x:
+                acc = xor_blocks(acc, gfmul_block(parity_coeff(self.arr, l, k), self.blocks[x]))
+        return acc == got
+
     def refresh_parity_view(self):
         """after damage: keep an `E` entry only where the real bytes still are what it says; otherwise junk / none"""
         a = self.arr
         self.junk = getattr(self, 'junk', 5000000)
+        if not hasattr(self, 'validated'):
+            self.validated = {}       # (level, pos) -> bytes known to be the encoding of the E entry
         newp = []
         for l in range(a.np):
             real = a.parity_bytes(l)
-            have = os.path.exists(a.parity_files[l][0])
             lv = []
             old = self.parity[l]
             npos = max(len(old), (len(real) + a.bs - 1) // a.bs)
@@ -408,13 +419,110 @@ class Bridge01(Bridge):
                     continue
                 e = old[pos] if pos < len(old) else ['J0']
                 if e[0][0] == 'E':
-                    v = [self.blocks[int(x)] for x in e[1:]]
-                    mode = 'z' if (a.zmode and l < 3) else 'c'
-                    exp = gfref.gen(mode, l + 1, v)[l]
-                    if got == exp:
+                    if self.validated.get((l, pos)) == got:
+                        lv.append(e)
+                        continue
+                    if self.encodes(l, [int(x) for x in e[1:]], got):
+                        self.validated[(l, pos)] = got
                         lv.append(e)
                         continue
                 self.junk += 1
                 lv.append(['J%d' % self.junk])
             newp.append(lv)
         return newp
+
+
+# ------------------------------------------------------------------------------------------------ independent hash
+def _rotl(x, r):
+    return ((x << r) | (x >> (32 - r))) & 0xFFFFFFFF
+
+
+def _fmix(h):
+    h ^= h >> 16; h = (h * 0x85ebca6b) & 0xFFFFFFFF
+    h ^= h >> 13; h = (h * 0xc2b2ae35) & 0xFFFFFFFF
+    h ^= h >> 16
+    return h
+
+
+def murmur3_x86_128(data, seed):
+    """MurmurHash3_x86_128 with a 16-byte seed (four little-endian words), written from the public algorithm description"""
+    import struct
+    M = 0xFFFFFFFF
+    c1, c2, c3, c4 = 0x239b961b, 0xab0e9789, 0x38b34ae5, 0xa1e38b93
+    h1, h2, h3, h4 = struct.unpack('<4I', seed)
+    n = len(data)
+    nb = n // 16
+    if nb:
+        for k1, k2, k3, k4 in struct.iter_unpack('<4I', data[:nb * 16]):
+            k1 = (k1 * c1) & M; k1 = _rotl(k1, 15); k1 = (k1 * c2) & M; h1 ^= k1
+            h1 = _rotl(h1, 19); h1 = (h1 + h2) & M; h1 = (h1 * 5 + 0x561ccd1b) & M
+            k2 = (k2 * c2) & M; k2 = _rotl(k2, 16); k2 = (k2 * c3) & M; h2 ^= k2
+            h2 = _rotl(h2, 17); h2 = (h2 + h3) & M; h2 = (h2 * 5 + 0x0bcaa747) & M
+            k3 = (k3 * c3) & M; k3 = _rotl(k3, 17); k3 = (k3 * c4) & M; h3 ^= k3
+            h3 = _rotl(h3, 15); h3 = (h3 + h4) & M; h3 = (h3 * 5 + 0x96cd1c35) & M
+            k4 = (k4 * c4) & M; k4 = _rotl(k4, 18); k4 = (k4 * c1) & M; h4 ^= k4
+            h4 = _rotl(h4, 13); h4 = (h4 + h1) & M; h4 = (h4 * 5 + 0x32ac3b17) & M
+    tail = data[nb * 16:]
+    r = len(tail)
+    if r:
+        t = tail + bytes(16 - r)
+        k1, k2, k3, k4 = struct.unpack('<4I', t)
+        if r > 12:
+            k4 = (k4 * c4) & M; k4 = _rotl(k4, 18); k4 = (k4 * c1) & M; h4 ^= k4
+        if r > 8:
+            k3 = (k3 * c3) & M; k3 = _rotl(k3, 17); k3 = (k3 * c4) & M; h3 ^= k3
+        if r > 4:
+            k2 = (k2 * c2) & M; k2 = _rotl(k2, 16); k2 = (k2 * c3) & M; h2 ^= k2
+        k1 = (k1 * c1) & M; k1 = _rotl(k1, 15); k1 = (k1 * c2) & M; h1 ^= k1
+    h1 ^= n; h2 ^= n; h3 ^= n; h4 ^= n
+    h1 = (h1 + h2 + h3 + h4) & M
+    h2 = (h2 + h1) & M; h3 = (h3 + h1) & M; h4 = (h4 + h1) & M
+    h1, h2, h3, h4 = _fmix(h1), _fmix(h2), _fmix(h3), _fmix(h4)
+    h1 = (h1 + h2 + h3 + h4) & M
+    h2 = (h2 + h1) & M; h3 = (h3 + h1) & M; h4 = (h4 + h1) & M
+    return struct.pack('<4I', h1, h2, h3, h4)
+
+
+# ------------------------------------------------------------------------------------------------ what parity encodes
+_TR = {}
+
+
+def gfmul_block(c, blk):
+    if c == 0:
+        return bytes(len(blk))
+    if c == 1:
+        return blk
+    t = _TR.get(c)
+    if t is None:
+        t = _TR[c] = bytes(gfref.MUL[c])
+    return blk.translate(t)
+
+
+def xor_blocks(a, b):
+    return (int.from_bytes(a, 'little') ^ int.from_bytes(b, 'little')).to_bytes(len(a), 'little')
+
+
+def parity_coeff(arr, l, i):
+    mode = 'z' if (arr.zmode and l < 3) else 'c'
+    return gfref.matrix(mode)(l, i)
+
+
+def decode_parity_block(arr, l, real, cands):
+    """find the data vector (one block per disk position, chosen among cands[i]) that the real parity block of level l
+    encodes; returns the list of blocks or None.  cands: list (by disk position) of lists of padded blocks"""
+    n = len(cands)
+    # meet in the middle is not needed: the candidate lists are tiny (blocks ever recorded at this position + zero)
+    partial = [(bytes(len(real)), [])]
+    for i in range(n):
+        c = parity_coeff(arr, l, i)
+        nxt = []
+        for acc, chosen in partial:
+            for b in cands[i]:
+                nxt.append((xor_blocks(acc, gfmul_block(c, b)), chosen + [b]))
+        partial = nxt
+        if len(partial) > 20000:
+            return None
+    for acc, chosen in partial:
+        if acc == real:
+            return chosen
+    return None
